@@ -259,6 +259,25 @@ def _run_loops(case):
             if b['loop'] != c['loop']:
                 viol.append(V('cross-loop-result', f"caller {c['i']} on {c['loop']} got a value computed by a batch on {b['loop']}",
                               'cross-loop-result'))
+    # "each loop getting its own independent batching": on every loop, work items that arrive less than
+    # batch_timeout apart share a batch unless it is full, whatever the other loops are doing
+    where = {i: b for b in hist['batches'] for _, i in b['items']}
+    for b in hist['batches']:
+        keys = [k for k, _ in b['items']]
+        if len(set(keys)) != len(keys):
+            viol.append(V('dup-key-in-batch', f"batch {b['id']} on {b['loop']} carries a key twice: {keys}", 'loops-dup-key-in-batch'))
+    per_loop = {}
+    for c in hist['callers']:
+        if c['i'] in where and c['arrived'] is not None:
+            per_loop.setdefault((c['phase'], c['loop_index']), []).append(c)
+    for lp, cs in per_loop.items():
+        for a, b_ in zip(cs, cs[1:]):
+            gap = b_['arrived'] - a['arrived']
+            if gap < cfg['bt'] - U / 2 and where[a['i']] is not where[b_['i']] and len(where[a['i']]['items']) < cfg['mbs']:
+                viol.append(V('split-burst', f"loop {a['loop']}: calls {a['i']} and {b_['i']} arrived {gap:.4f}s apart (< batch_timeout "
+                              f"{cfg['bt']}) but went to batches {where[a['i']]['id']} (size {len(where[a['i']]['items'])}, limit "
+                              f"{cfg['mbs']}) and {where[b_['i']]['id']}", 'loops-split-burst'))
+                break
     nloops = sum(len(ph) for ph in case['phases'])
     nt = nloops >= 2
     cl = ['kind=loops', 'form=' + case['form'], 'sched=' + case['sched']['mode']] + (['nontrivial'] if nt else [])
